@@ -47,18 +47,18 @@ Init == /\ R!Init
         /\ hist = <<>>
         /\ verd = <<>>
 
-(* sampling of the deepest level only (RM_SampleMod = 1: exhaustive) *)
+(* All behaviours are explored; of the longest ones every RM_SampleMod-th is printed for replay (1 = all).  The *)
+(* selection depends on the last action through 13 * i, so for RM_SampleMod coprime to 13 every behaviour of   *)
+(* length RM_MaxLen - 1 keeps at least NActs \div RM_SampleMod printed extensions.                              *)
 RECURSIVE WSum(_, _)
-WSum(h, j) == IF j > Len(h) THEN 0 ELSE (h[j] * (7 * j + 3)) + WSum(h, j + 1)
-Selected(i) ==
+WSum(h, j) == IF j >= Len(h) THEN 0 ELSE (h[j] * (7 * j + 3)) + WSum(h, j + 1)
+SelectedLeaf ==
     \/ RM_SampleMod = 1
-    \/ Len(hist) + 1 < RM_MaxLen
-    \/ (WSum(hist, 1) + 13 * i + RM_SampleRes) % RM_SampleMod = 0
+    \/ (WSum(hist, 1) + 13 * hist[Len(hist)] + RM_SampleRes) % RM_SampleMod = 0
 
 Step(i) ==
     LET a == RM_Acts[i] IN
     /\ Len(hist) < RM_MaxLen
-    /\ Selected(i)
     /\ hist' = Append(hist, i)
     /\ CASE a.t = "draw" -> R!UserDraw /\ verd' = Append(verd, <<TRUE, TRUE>>)
          [] a.t = "seed" -> R!UserSeed(a.s) /\ verd' = Append(verd, <<TRUE, TRUE>>)
@@ -85,7 +85,7 @@ FlagsComplete ==
         (a.t = "call" /\ RM_Disc[a.r] = "global") => verd[j][1] = FALSE
 
 Bit(b) == IF b THEN 1 ELSE 0
-Emit == (Len(hist) = RM_MaxLen) =>
+Emit == (Len(hist) = RM_MaxLen /\ SelectedLeaf) =>
             PrintT(ToJson([h |-> hist,
                            vg |-> [j \in 1..Len(verd) |-> Bit(verd[j][1])],
                            vd |-> [j \in 1..Len(verd) |-> Bit(verd[j][2])]]))
